@@ -750,7 +750,7 @@ func TestVerifC17(t *testing.T) {
 	if shard == 0 {
 		nDirected = len(directed) * int(nCfg)
 	}
-	nRandom := kit.Scale(75, 400) * int(nCfg)
+	nRandom := kit.Scale(60, 200) * int(nCfg)
 	only := kit.OnlyCase()
 	var perCfg [nCfg]stats
 	var seqs [nCfg]int
